@@ -19,7 +19,7 @@ LEVEL_TEXT = ('All non-empty windows, slices (step +-1,+-2) and indices, and all
               'extents the independent layout map allows for the chunks overlapping the request.')
 LEVEL_NOTE = ('Trusted: layout map produced by the independent encoder. Allowed: requested channel bytes inside overlapping chunks '
               '(contiguous), whole overlapping chunks (interleaved/DAQmx), 28-byte lead-in of each segment from the first to the '
-              'last overlapping chunk. Empty requests are not judged.')
+              'last overlapping chunk. An empty window may touch at most the one chunk containing its offset.')
 ASSUMPTIONS = ['a slice requests the index range [start, stop) it spans (not only the strided elements)']
 
 
@@ -121,8 +121,9 @@ def check_file(kind, opts, seed, collect=3, cut=None):
         if len(ch) != L:
             return 0, [('len', None, L, len(ch))]
         for off in range(L):
-            for ln in list(range(1, L - off + 2)) + [None]:
-                hi = L if ln is None else min(L, off + ln)
+            for ln in [0] + list(range(1, L - off + 2)) + [None]:
+                # an empty window is allowed to touch the one chunk that contains its offset, nothing more
+                hi = L if ln is None else (off + 1 if ln == 0 else min(L, off + ln))
                 for scaled in ((True, False) if kind != 'daqmx' else (False, True)):
                     nops += 1
                     judge('window', ['read_data', off, ln, scaled], off, hi,
